@@ -845,6 +845,21 @@ func (e *Env) evalCall(t *ast.CallExpr) Val {
 			k := e.eval(t.Args[1])
 			_, ok := c.mapLookup(e.cur, m, k)
 			return boolVal(ok)
+		case "member":
+			// member(s, x): x occurs in the slice s (element type with one Int or Str leaf); a defined predicate
+			// with a witness function (prelude) that append and the stubs speak about
+			sv := e.eval(t.Args[0])
+			x := e.eval(t.Args[1])
+			sl, ok := sv.T.Underlying().(*types.Slice)
+			if !ok {
+				panic(specErr("member(s, x): s must be a slice"))
+			}
+			leaves := leavesOf(sl.Elem())
+			if len(leaves) != 1 || (leaves[0].Sort != SInt && leaves[0].Sort != SStr) || len(x.L) != 1 {
+				panic(specErr("member(s, x): the element type must be a string or an integer"))
+			}
+			h := c.get(e.cur, heapFam(sl.Elem(), 0), heapSort(leaves[0].Sort))
+			return boolVal(App("mem_"+leaves[0].Sort, SBool, Select(h, sv.L[0]), sv.L[1], sv.L[2], x.L[0]))
 		case "iface":
 			// iface(x): x boxed into an interface value (dynamic type = static type of x)
 			v := e.eval(t.Args[0])
